@@ -18,40 +18,40 @@ NA = {
 }
 CHECKS = {
  "C16": ("exploration",
-   "Every (query, context kind, resolver kind, entry point, cancellation point k of n) combination is enumerated and seeded schedules with random gate density are sampled; the oracle classifies each recorded history as cancel-before-completion / completion-before-cancel / both-ready and demands exactly the context error, the solo response, or either; promptness is a step count (no resolver released between cancellation and return).",
+   "Every (query, context kind, resolver kind, entry point, cancellation point k of n) combination is enumerated and seeded schedules with random gate density are sampled; the oracle classifies each recorded history as cancel-before-completion / completion-before-cancel / both-ready and demands exactly the context error, the solo response, or either; promptness is a step count (no resolver released between cancellation and return). Also sampled: a second, never cancelled request on the same prepared plan while the abandoned execution still runs (must equal its solo response), lazy planning that panics in user code while the plan's lock is held, a resolver that ends the executing goroutine (the call must return), extensions handing back detached contexts, a preceding cancelled request.",
    "Trusted: testing/synctest fake clock and quiescence detection (go1.26.8), the seeded scheduler, the solo run of the same library code as reference. Sampled schedules, not all.",
    "seeded schedule search + enumerated cancellation points on a simulated clock", "§5 C16"),
  "C17": ("fault_enumeration",
-   "All single-panic placements (11 hooks + 4 nil finish functions) x 4 panic value kinds x 8 request outcomes x 6 extension positions x 2 entry points are enumerated, multi-panic plans sampled, each under a seeded map-iteration order; the oracle is a grammar/balance check over each extension's recorded hook log plus 'every fired panic is reported' and 'no panic escapes'.",
-   "Trusted: the instrumented Extension implementations and the hook-log grammar in sim/c17.go; map-order seam (tools/maporder). Resolver panics and cancellation are outside this property's quantifier and are not injected here.",
+   "All single-panic placements (11 hooks + 4 nil finish functions) x 6 panic value kinds x 16 requests x 6 extension positions x 2 entry points are enumerated, multi-panic plans sampled, each under a seeded map-iteration order; the oracle is a grammar/balance check over each extension's recorded hook log plus 'every fired panic is reported' and 'no panic escapes'. Panic values include ones whose Error/String method itself fails; requests include panicking resolvers (the resolve phase must still be finished). 12% of the sampled runs are cancellation scenarios on the seeded scheduler (a C16 scenario with 1-2 instrumented extensions): the hook log as it stands when the call returns must show every started phase finished exactly once and result collection done.",
+   "Trusted: the instrumented Extension implementations and the hook-log grammar in sim/c17.go; map-order seam (tools/maporder). In the cancellation scenarios resolve notifications are not judged (an abandoned execution may still deliver them).",
    "enumerated panic-fault plans over instrumented extension hooks, seeded map order", "§5 C17"),
  "C13": ("exploration",
-   "Seeded mutation documents with known top-level order (aliases, fragments, merged duplicates, nested selections) are executed under seeded deferral/fault plans (thunks at any depth, failing thunks) and all four map-order policies; the oracle is a rank-monotonicity check over the recorded resolver/thunk event log.",
+   "Seeded mutation documents with known top-level order (aliases, typed / bare / nested inline fragments and spreads, merged duplicates with variable-driven directives, multi-operation documents, nested selections up to 70 levels) are executed under seeded deferral/fault plans (thunks at any depth, failing thunks) and all four map-order policies; the oracle is a rank-monotonicity check over the recorded resolver/thunk event log.",
    "Trusted: document generator (order known by construction), the instrumented resolvers' event log, map-order seam.",
    "seeded deferral-fault plans + controlled map-iteration order, event-log ordering oracle", "§5 C13"),
  "C04": ("fault_enumeration",
-   "Every single (response position, applicable fault kind, entry point) placement over a 38-request pool covering the nullability lattice, lists of leaves, abstract and single-possible-type positions is enumerated (about 10 000 placements; 27 fault kinds incl. element-level faults and deferred list elements) and multi-fault plans are sampled; the response is compared with a null-propagation reference model applied to the fault-free run (exact data equality, required error paths with order-aware shadowing, error paths address nulls) and with an independent selected-response-keys oracle (sim/selcheck.go). One recorded defect (non-null failure crossing a deferred position) is a known finding.",
+   "Every single (response position, applicable fault kind, entry point) placement over a 43-request pool covering the nullability lattice, lists of leaves, abstract and single-possible-type positions is enumerated (about 10 000 placements; 32 fault kinds incl. element-level faults, deferred list elements, thunks yielding thunks, shared error values, possible types of another abstract type) and multi-fault plans are sampled, 45% of them on documents produced by a seeded generator of valid documents (sim/gendoc.go) and some with one outcome at every index of a list; the response is compared with a null-propagation reference model applied to the fault-free run (exact data equality, required error paths with order-aware shadowing, error paths address nulls) and with an independent selected-response-keys oracle (sim/selcheck.go). One recorded defect (non-null failure crossing a deferred position) is a known finding.",
    "Trusted: the reference model in sim/c04.go (about 60 lines), declared types recorded from ResolveInfo.ReturnType in the fault-free run. Soft faults (wrong Go kind at a nullable leaf, NaN, out-of-range, unknown enum value) accept null or a kind-conformant leaf.",
    "enumerated callback-fault plans against a null-propagation reference model", "§5 C04"),
 }
 CHECKS["C12"] = ("exploration",
-   "Every request of a 31-request pool (valid, invalid, failing at execution incl. several failing deferred values and panicking extension hooks, introspection) is executed and validated under 12 map-iteration-order policies on the same schema and on schemas rebuilt under each policy (enumerated), and after seeded histories of other requests through Do / a shared plan cache / prepared plans (sampled); the marshalled JSON must be byte-identical to the reference response.",
+   "Every request of a 63-request pool (valid, invalid, failing at execution incl. several failing deferred values and panicking extension hooks, introspection) is executed and validated under 12 map-iteration-order policies on the same schema and on schemas rebuilt under each policy (enumerated), after every single other request of the pool (enumerated pairs), and after seeded histories of other requests through Do / a shared plan cache / prepared plans (sampled; 35% on generated documents with failing resolvers); the marshalled JSON must be byte-identical to the reference response. One parsed document is validated repeatedly and must be left unmodified.",
    "Trusted: the map-order seam (tools/maporder rewrites every range-over-map of the library; 0 uncontrolled loops is asserted in the evidence); any permutation is admissible because Go leaves the order unspecified. Not covered: Go runtime nondeterminism other than map order and select.",
    "controlled hash-map iteration order (seeded permutations) + seeded request histories, byte-equality oracle", "§5 C12")
 CHECKS["C06"] = ("exploration",
-   "Every ordered pair of an 85-request near-collision pool (a, b, a) is pushed through a fresh cache with Normalize on and off (enumerated); seeded histories of Get+ExecutePlan, plan re-execution with other variables, Reset and schema replacement run under seeded cache knobs (MaxEntries 1-4/default, tiny MaxQueryBytes, nil cache), and an interleaved variant runs two clients on two same-shape schemas through one cache on the seeded scheduler (double misses, racing stores). After every operation the response must equal graphql.Do of the same request from scratch (including error responses), the entry count must respect the bound, counters must be monotone. The thorough tier also runs the race build. One recorded defect (error locations of a normalised hit) is a known finding.",
+   "Every ordered pair of a 105-request near-collision pool (a, b, a) is pushed through a fresh cache with Normalize on and off (enumerated); seeded histories of Get+ExecutePlan, plan re-execution with other variables, Reset and schema replacement run under seeded cache knobs (MaxEntries 1-4/default, tiny MaxQueryBytes, nil cache), (35% with generated documents: one structure with two sets of literals plus an unrelated one), two schemas of different shape share the cache (cached errors must not cross; the first Get for an unseen schema is a miss), and an interleaved variant runs two clients on two schemas through one cache on the seeded scheduler (double misses, racing stores). After every operation the response must equal graphql.Do of the same request from scratch (including error responses), the entry count must respect the bound, counters must be monotone. The thorough tier also runs the race build. One recorded defect (error locations of a normalised hit) is a known finding.",
    "Trusted: graphql.Do of the same library as the from-scratch reference (a bug that corrupts both paths identically is C01's business); the echo world makes every argument, alias, included sibling and schema id visible in the response. 'The original document is not modified' is not observable through Get(text) and is not claimed.",
    "seeded operation histories + enumerated request pairs against a from-scratch reference execution", "§5 C06")
 CHECKS["C15"] = ("exploration",
    "Producer, the library's forwarding goroutine, per-event executor goroutines, consumer (prompt / slow / stops after j) and the cancellation action are interleaved by the seeded scheduler over 0-5 events (ok, nullable failure, non-null failure) and subscribe-phase faults (syntax, validation, unknown operation, Subscribe returning error / nil / a plain value / a closed stream / panicking with error, string, int); the recorded history must show results in source order, each equal to the solo execution of its event (or the context error after cancellation), one result per event without cancellation, closure after source close / cancellation / failure, and - after cancellation and quiescence - no goroutine of the subscription still blocked (read off the bubble's goroutine dump).",
-   "Trusted: testing/synctest quiescence detection and goroutine dump, the seeded scheduler. The library's two-ready selects are kept single-ready in the default mode (cancellation is not placed while the producer is mid-send or a result is pending at a blocked consumer; a consumer polls after cancellation); the both-ready mode (10% of runs) lifts this and accepts either legal branch.",
+   "Trusted: testing/synctest quiescence detection and goroutine dump, the seeded scheduler. The library's two-ready selects are kept single-ready in the default mode (cancellation is not placed while the producer is mid-send or a result is pending at a blocked consumer; a consumer polls after cancellation); the both-ready mode (16% of runs, most of them with a buffered source) lifts this and accepts either legal branch. A payload-independent rule counts executions against delivered results (a dropped result followed by a delivered later one).",
    "seeded interleaving of producer / forwarder / executors / consumer / canceller with leak detection at quiescence", "§5 C15")
 CHECKS["C07"] = ("exploration",
-   "2-4 client tasks share one cold schema value, prepared plans and one plan cache (size 1-3, Normalize on/off) and issue Do / Get+ExecutePlan / ExecutePlan on a shared plan / ValidateDocument / Reset; the seeded scheduler interleaves them at client steps, every instrumented callback and the library's verif yield hooks (before each lock, the executor start and result send). Oracles: Go race detector on a -race build with every simulator hand-off hidden from it (runtime.RaceDisable), so that only the library's own synchronisation orders accesses and a race becomes a deterministic function of the chosen schedule; no panic; no deadlock / all clients finish; each response byte-equal to the same request run alone on a separately built cold schema; cache entry bound at every step.",
+   "2-4 client tasks share one cold schema value, prepared plans and one plan cache (size 1-3, Normalize on/off) and issue Do / Get+ExecutePlan / ExecutePlan on a shared plan / ValidateDocument / Reset over a 27-request pool plus generated documents; the seeded scheduler interleaves them at client steps, every instrumented callback and the library's verif yield hooks (before each lock, the executor start and result send). Oracles: Go race detector on a -race build with every simulator hand-off hidden from it (runtime.RaceDisable), so that only the library's own synchronisation orders accesses and a race becomes a deterministic function of the chosen schedule; no panic; no deadlock / all clients finish; each response byte-equal to the same request run alone on a separately built cold schema; cache entry bound at every step.",
    "Trusted: runtime.RaceDisable hiding of scheduler hand-offs (a harness-only race is reported as infrastructure error, exit 2), the happens-before race detector (reports races between accesses that actually occur in the explored schedules), go1.26.8 testing/synctest. Package-level lazily initialised state is cold only in the first run of each worker process.",
    "seeded interleaving search with the race detector as oracle (simulator synchronisation hidden from it)", "§5 C07, §2.4")
 CHECKS["C20"] = ("exploration",
-   "Scoped to what depends on history and schedule (DESIGN.md §5 C20): one plan (prepared directly, obtained through the plain or the normalising cache, or re-planned per call) is executed 1-9 times by 1-3 interleaved client tasks, each execution with its own root token, variables, runtime-type variant, optional panicking extension hook and hostile resolvers that scribble over the argument map / variable map they were handed. Every resolver, type-resolver and isTypeOf invocation checks locally that its source is the token its parent produced in this execution, that ParentType is the runtime type, ReturnType the declared type, Path / FieldASTs / occurrence count / Operation / Fragments / RootValue / Schema are this request's, that directly variable-fed arguments carry the supplied values, that no argument or variable shows another invocation's writes, and that the context arrived; per-path arguments, resolved-path sets, response keys (independent selection-set oracle) and responses are compared with the same execution run alone.",
+   "Scoped to what depends on history and schedule (DESIGN.md §5 C20): one plan (prepared directly, obtained through the plain or the normalising cache, or re-planned per call) is executed 1-9 times by 1-3 interleaved client tasks, each execution with its own root token, variables, runtime-type variant, optional panicking extension hook and hostile resolvers that scribble over the argument map / variable map they were handed. Requests: an 18-request pool and 35% generated documents. Every resolver, type-resolver, isTypeOf and FieldResolver-source invocation (also of default-resolved fields) checks locally that its source is the token its parent produced in this execution, that ParentType is the runtime type, ReturnType the declared type, Path / FieldASTs / occurrence count / Operation / Fragments / RootValue / Schema are this request's, that directly variable-fed arguments carry the supplied values, that no argument or variable shows another invocation's writes, and that the context arrived; per-path arguments, resolved-path sets, response keys (independent selection-set oracle) and responses are compared with the same execution run alone.",
    "Trusted: tokens name (type, path, execution) by construction; the per-path comparison uses the same library code run alone, so a wrong coercion that is identical in both is outside this check (C05/C01). Whether the set of selected fields is right is only checked through the independent response-key oracle (sim/selcheck.go).",
    "seeded plan-reuse histories and interleavings with hostile callbacks, local parameter invariants", "§5 C20")
 REASONS_PENDING = "claimed in DESIGN.md; the check is still under construction and is therefore not registered yet"
